@@ -231,8 +231,6 @@ class ExactGP(GP):
         except KeyError:
             fantasy_kwargs = {}
 
-        full_output = super().__call__(*full_inputs, **kwargs)
-
         # Copy model without copying training data or prediction strategy (since we'll overwrite those)
         old_pred_strat = self.prediction_strategy
         old_train_inputs = self.train_inputs
@@ -250,6 +248,10 @@ class ExactGP(GP):
             self.train_inputs = old_train_inputs
             self.train_targets = old_train_targets
             self.likelihood = old_likelihood
+
+        # The joint prior is evaluated with the *copied* mean and kernel modules: its (lazily evaluated) covariance and
+        # its mean are kept by the new prediction strategy, and must not follow later changes of this (source) model.
+        full_output = super(ExactGP, new_model).__call__(*full_inputs, **kwargs)
 
         new_model.likelihood = old_likelihood.get_fantasy_likelihood(**fantasy_kwargs)
         new_model.prediction_strategy = old_pred_strat.get_fantasy_strategy(
